@@ -55,8 +55,8 @@ PROPS = {
         assumptions=["the labels of Proofs/Labels.v describe the parser's own decisions; their meaning is pinned by the C03_label_* theorems"],
     ),
     "C04": dict(
-        runs=[parse_run("term", "00011100", 4000, 200000), build_run(1500, 60000, "build")],
-        rule="argv with `--` planted after every context kind; non-trivial = `--` present and neither first nor last",
+        runs=[parse_run("term", "00011100", 4000, 200000), parse_run("bundle", "00011100", 2500, 100000), build_run(1500, 60000, "build")],
+        rule="argv with `--` planted after every context kind, and bundles of two greedy options followed by their values, `--` and a tail; non-trivial = `--` present and neither first nor last",
     ),
     "C05": dict(
         runs=[parse_run("abbrev", "11001100", 4000, 200000), build_run(1500, 60000, "build")],
@@ -132,7 +132,8 @@ PROPS = {
     ),
     "C19": dict(
         runs=[tie(parse_run("soup", "10000000", 3000, 300000)), tie(dispatch_run("dispatch", "10000000", "000000", 2000, 100000)),
-              build_run(2000, 100000, scope="all"), tie(tok_run(30000, 1000000)), tie(complete_run(2500, 100000))],
+              build_run(2000, 100000, scope="all"), tie(tok_run(30000, 1000000)), tie(complete_run(2500, 100000)),
+              tie(dag_run("result", 500, 20000))],
         coq_sample=10,
         rule="byte soup / weird tokens / 20 kB tokens / 3000-token argv on random definitions, each call under recover() and a 10 s deadline; invalid definitions must panic at definition time exactly when the builder model rejects them; non-trivial = a non-ASCII or control byte is present or argv has >= 50 tokens",
         assumptions=["panics or super-linear behaviour inside Go's regexp/strconv/fmt/sort are outside the model: that part is search (recover + deadline), labelled as such"],
